@@ -229,11 +229,34 @@ impl Lane {
     }
 
     pub fn reset_crate(&self, rel: &str, name: &str) {
+        // The crate is a workspace member: other compiler processes of this lane may be reading
+        // the workspace right now (`cargo metadata`), so the manifest must never be missing or
+        // half-written. Files are replaced atomically (write to a temporary name, then rename).
         let d = self.ws().join(rel);
-        let _ = std::fs::remove_dir_all(&d);
         let _ = std::fs::create_dir_all(d.join("src"));
-        std::fs::write(d.join("Cargo.toml"), format!("[package]\nname = \"{name}\"\nversion = \"0.1.0\"\nedition = \"2024\"\n\n[dependencies]\n")).unwrap();
-        std::fs::write(d.join("src/lib.rs"), "").unwrap();
+        let atomic = |p: PathBuf, content: &str| {
+            let tmp = p.with_extension("tmp-reset");
+            std::fs::write(&tmp, content).unwrap();
+            std::fs::rename(&tmp, &p).unwrap();
+        };
+        atomic(d.join("Cargo.toml"), &format!("[package]\nname = \"{name}\"\nversion = \"0.1.0\"\nedition = \"2024\"\n\n[dependencies]\n"));
+        atomic(d.join("src/lib.rs"), "");
+        // anything else the generator may have left behind
+        if let Ok(rd) = std::fs::read_dir(&d) {
+            for e in rd.flatten() {
+                let n = e.file_name().to_string_lossy().to_string();
+                if n != "Cargo.toml" && n != "src" {
+                    let _ = if e.path().is_dir() { std::fs::remove_dir_all(e.path()) } else { std::fs::remove_file(e.path()) };
+                }
+            }
+        }
+        if let Ok(rd) = std::fs::read_dir(d.join("src")) {
+            for e in rd.flatten() {
+                if e.file_name() != "lib.rs" {
+                    let _ = if e.path().is_dir() { std::fs::remove_dir_all(e.path()) } else { std::fs::remove_file(e.path()) };
+                }
+            }
+        }
     }
 
     pub fn cargo(&self, args: &[&str], timeout: Duration) -> RunResult {
